@@ -5,8 +5,9 @@
 //	line <withid> <unix-ns> <tag-hex> <id> <f0,...,f9>        lines.go   real appendPhout (verif hook)
 //	setters <unix-ns> <tag-hex> <id> <9 values>               lines.go   public setters + Sample.String()
 //	aggr <fmt> <Q> <G> <per> <mode> <delay-ms> <buf> <salt> [<stall-ms>]   aggr.go   real aggregators under G reporters
-//	engine <fmt> <instances> <ammo> <Q>                       engine.go  real engine, normal end of run
-//	signal <INT|TERM> <delay-ms> <instances> <buf> <salt>     signal.go  pandora-verif subprocess + signal
+//	engine <fmt> <instances> <ammo> <Q> <buf> [<ramp/s> <shot-us>]  engine.go  real engine, normal end of run (optionally instances started over time, slow shots)
+//	signal <INT|TERM> <delay-ms> <instances> <work-us> <buf>  signal.go  pandora-verif subprocess + signal
+//	fail <after-shots> <instances> <work-us> <buf>            signal.go  pandora-verif subprocess, gun fault mid-run (failed-run exit path)
 package main
 
 import (
@@ -29,6 +30,8 @@ func runCase(c string) string {
 		return runEngine(f)
 	case "signal":
 		return runSignal(f)
+	case "fail":
+		return runFail(f)
 	}
 	return "unknown-case"
 }
@@ -39,6 +42,7 @@ func gen(r *vh.Rand, tier string) []string {
 	out = append(out, genAggr(r, tier)...)
 	out = append(out, genEngine(r, tier)...)
 	out = append(out, genSignal(r, tier)...)
+	out = append(out, genFail(r, tier)...)
 	return out
 }
 
